@@ -2,15 +2,16 @@ package log
 
 import (
 	"os"
+	"reflect"
 	"sync"
 )
 
 // VerifReset restores every piece of package-level state, so that each execution explored by the
 // verification harness starts from the same state. (Added by overlay; not part of the library.)
 func VerifReset() {
-	global.init = false
-	global.loggers = nil
-	global.appenders = nil
+	// the whole lifecycle record back to its zero value, whatever its fields are called
+	gv := reflect.ValueOf(&global).Elem()
+	gv.Set(reflect.Zero(gv.Type()))
 	for _, t := range tagRegistry {
 		t.logger = nil
 	}
